@@ -26,7 +26,15 @@ import (
 	"github.com/sassoftware/relic/v8/zz_verif/world"
 
 	// signature modules used by the scenarios
+	_ "github.com/sassoftware/relic/v8/signers/apk"
 	_ "github.com/sassoftware/relic/v8/signers/appmanifest"
+	_ "github.com/sassoftware/relic/v8/signers/appx"
+	_ "github.com/sassoftware/relic/v8/signers/cab"
+	_ "github.com/sassoftware/relic/v8/signers/deb"
+	_ "github.com/sassoftware/relic/v8/signers/dmg"
+	_ "github.com/sassoftware/relic/v8/signers/rpm"
+	_ "github.com/sassoftware/relic/v8/signers/xap"
+	_ "github.com/sassoftware/relic/v8/signers/xar"
 	_ "github.com/sassoftware/relic/v8/signers/cat"
 	_ "github.com/sassoftware/relic/v8/signers/jar"
 	_ "github.com/sassoftware/relic/v8/signers/msi"
